@@ -142,12 +142,16 @@ def _candidates(x):
                     break
                 step //= 2
         for i, el in enumerate(x):
+            if i == 0 and isinstance(el, str):
+                continue        # operation tag
             for c in _candidates(el):
                 yield x[:i] + [c] + x[i + 1:]
     elif isinstance(x, dict):
         for k in x:
             if k in ('sub', 'op'):
                 continue
+            if isinstance(x[k], str) and not (k.startswith('text') or k.startswith('data')):
+                continue        # tags / modes are not shrunk
             for c in _candidates(x[k]):
                 d = dict(x)
                 d[k] = c
